@@ -3,12 +3,49 @@ def plan(tier):
     return {
         "mc": [{"module": "FastxIOMC", "cfg": "FastxIOMC.cfg" if q else "FastxIOMC_thorough.cfg",
                 "timeout": 3000}],
-        "families": [{"fam": "fastx", "trace": "FastxIOTrace", "nfiles": 4}],
-        "required_obligations": [],
-        "rule": "",
-        "bounds": {},
-        "assumptions": [],
+        "families": [{"fam": "fastx", "trace": "FastxIOTrace", "nfiles": 4 if q else 8}],
+        "required_obligations": [
+            "tok_exhaustive", "line_tokens_exhaustive", "tok_long", "rt_fasta", "rt_fastq", "empty_list",
+            "cap1", "cap8192", "sched_all1", "sched_line_end", "wrap1", "wrap_eq_len", "wrap_len_plus1",
+            "fastq_multiline", "crlf", "cut", "cut_all_offsets", "either_fasta", "either_fastq",
+            "desc_with_whitespace", "qual_lead_at", "qual_lead_plus", "damaged", "arbitrary_ascii",
+            "invalid_utf8", "nonascii_utf8", "err_fasta_fmt", "err_missing_at", "err_incomplete", "err_utf8",
+            "record_after_error", "check_fails"],
+        "rule": "one run = one record list (or a batch of raw inputs); one event = one writer call or one complete "
+                "iteration of fasta::Records / fastq::Records / fastx::EitherRecords (or the read() loop) over "
+                "BufReader(cap in {1,2,3,5,16,8192}) over a scripted reader (1-byte, random, line-aligned, unlimited "
+                "chunks): every string over 9 tokens up to 4 (quick) / 5 (thorough) bytes, every sequence of up to "
+                "4 / 5 lines over 8 line tokens, random token soup, valid record lists (<= 6 records, printable ASCII) "
+                "written by the real writers, re-wrapped {None,1,2,7,60,len,len+1}, CRLF, every cut offset of small "
+                "streams and line-end cuts of large ones, damaged valid streams, arbitrary ASCII / non-ASCII / "
+                "invalid UTF-8 bytes",
+        "bounds": {"mc": "token alphabet {> @ + space CR LF A !}, all strings <= 5 (quick) / 6 (thorough) bytes through "
+                         "the FASTA, FASTQ and sniffer machines; all lists of <= 2 tiny valid records x wraps 0..2/3 x "
+                         "LF/CRLF x every cut offset x {direct, sniffer}; BufReader/read_line model over {LF,CR,A} "
+                         "strings <= 5/7 bytes, capacities 1..3/4, all fill schedules",
+                   "impl": "streams <= ~2.5 kB, sequences <= 120 (quick) / 300 (thorough), <= 6 records"},
+        "assumptions": [
+            "std BufRead::read_line / BufReader are trusted (modelled separately: kind 'lines' of FastxIOMC)",
+            "the exact clause covers ASCII input (Rust white space restricted to ASCII = {9,10,11,12,13,32}); for "
+            "non-ASCII or invalid UTF-8 bytes only 'returns, no panic, ends within |bytes|+2 items' is required",
+            "validity of generated records: id non-empty without white space; description absent or non-empty, no "
+            "CR/LF/VT/FF, no trailing white space; sequence non-empty without white space, FASTA: no '>', FASTQ: not "
+            "starting with '+' (no '+' at all when written multi-line); quality same length, printable ASCII",
+            "liveness on the code is a watchdog observation (every call returns; iteration bounded by |bytes|+3)"],
     }
 
 
-MANIFEST = None
+MANIFEST = {
+    "technique": "TLA+ parser machines (look-ahead line, line counter, sniffer, BufReader/read_line) model-checked by "
+                 "TLC against a functional definition of the outcome sequence and the writers' wire format; every "
+                 "recorded iteration of the real readers validated by TLC against the same definition",
+    "text": "TLC exhausts all token strings up to 5/6 bytes through FASTA, FASTQ and sniffer machines shaped like the "
+            "code (totality, progress measure, agreement with the functional definition) and all tiny record lists x "
+            "wrap x LF/CRLF x cut offset (round trip, layout independence, sniffer, truncation clauses); every "
+            "recorded outcome sequence of fasta::Records, fastq::Records, fastx::EitherRecords under varied BufReader "
+            "capacities and scripted short reads must equal the definition, which depends on the bytes only",
+    "note": "bounded: MC over an 8-token alphabet and <= 2 tiny records; implementation side exact for ASCII input, "
+            "totality only for non-ASCII bytes; std read_line trusted; termination on the code is a watchdog "
+            "observation",
+    "ref": "sec. 5 C11",
+}
